@@ -244,7 +244,7 @@ func isDigits(s string) bool {
 }
 
 func checkC15(c *vkit.Ctx) {
-	c.P.Rule = "four sub-workloads on generated documents: (A) one JSON matcher (Any with placeholders of every JSON kind, shorter/longer than the replaced value; Type of the right type; Custom) applied directly to an existing path (members incl. keys needing escapes, array elements, nested) - output must be valid JSON and decode, member order included, to set(decode(input), path, placeholder); (B) 1-3 matchers through snaps.MatchJSON/MatchStandaloneJSON with a []byte input carved out of a larger buffer - stored text must equal the left-to-right tree model and the caller's bytes and the guard regions must be unchanged; (C) one YAML matcher applied directly, judged against goccy's ordered decode; (D) snaps.MatchYAML with []byte input and the same canary; (E) one Any/Type matcher with several paths: unrelated paths against the tree model, and overlapping paths (parent before child, child before parent, same path twice) against the same paths applied one after the other (left to right), JSON and YAML; non-trivial = placeholder raw length differs from the replaced value, or the path needs escapes, or >= 2 matchers; distinct by hash(document, matchers)"
+	c.P.Rule = "four sub-workloads on generated documents: (A) one JSON matcher (Any with placeholders of every JSON kind, shorter/longer than the replaced value; Type of the right type; Custom) applied directly to an existing path (members incl. keys needing escapes, array elements, nested) - output must be valid JSON and decode, member order included, to set(decode(input), path, placeholder); (B) 1-3 matchers through snaps.MatchJSON/MatchStandaloneJSON with a []byte input carved out of a larger buffer - stored text must equal the left-to-right tree model and the caller's bytes and the guard regions must be unchanged; (C) one YAML matcher applied directly, judged against goccy's ordered decode; (D) snaps.MatchYAML with []byte input and the same canary; (E) one Any/Type matcher with several paths: unrelated paths against the tree model, and overlapping paths (parent before child, child before parent, same path twice) against the same paths applied one after the other (left to right), JSON and YAML; (F) one Any matcher value applied, re-configured through Placeholder/ErrOnMissingPath and applied again, each application compared with a matcher built with the current settings; non-trivial = placeholder raw length differs from the replaced value, or the path needs escapes, or >= 2 matchers; distinct by hash(document, matchers)"
 	c.P.Assumptions = []string{"encoding/json (ordered token walk) and goccy's ordered-map decoder are the tree oracles", "a matcher that reports an error on an existing path is allowed by the statement; such cases are counted, not judged"}
 	n := c.N(100000, 3000000)
 	for i := 0; i < n; i++ {
@@ -441,6 +441,105 @@ func c15JSONOverlap(c *vkit.Ctx, r *rand.Rand, i int) {
 	c.Case(vkit.Hash("jo", text, kind, fmt.Sprint(paths), phk), true)
 }
 
+// c15Reconfigured: a matcher value that is applied, re-configured through its own methods
+// (Placeholder, ErrOnMissingPath) and applied again - a package-level `var volatile =
+// match.Any(...)` used as it is in one test and as volatile.Placeholder("<id>") in another.
+// Every application must behave like a freshly built matcher with the current settings.
+func c15Reconfigured(c *vkit.Ctx, r *rand.Rand, i int, yaml bool) {
+	var d *vkit.JNode
+	var text string
+	var usable func(vkit.JPath) bool
+	if yaml {
+		d = vkit.YAMLTreeDoc(r, 3)
+		text = vkit.YAMLFromTree(d)
+		if docs, err := vkit.ParseYAMLDocs(text); err != nil || len(docs) != 1 || d.Equal(docs[0], true) != "" {
+			c.Count("premise_yaml_emitter_roundtrip_failed", 1)
+			return
+		}
+		usable = func(vkit.JPath) bool { return true }
+	} else {
+		d = vkit.JSONObjectDoc(r, 3, 1, vkit.Classes{})
+		text = d.Render(r, false)
+		usable = gjsonAddressable
+	}
+	p, ok := pickPath(r, d, usable)
+	if !ok {
+		return
+	}
+	ps := p.GJSON()
+	if yaml {
+		ps = p.YAMLPath()
+	}
+	missing := "zz_missing.member"
+	if yaml {
+		missing = "$.zz_missing.member"
+	}
+	apply := func(m interface {
+		JSON([]byte) ([]byte, []match.MatcherError)
+		YAML([]byte) ([]byte, []match.MatcherError)
+	}) (string, int, bool) {
+		var out []byte
+		var errs []match.MatcherError
+		okc := true
+		func() {
+			defer func() {
+				if rec := recover(); rec != nil {
+					okc = false
+				}
+			}()
+			if yaml {
+				out, errs = m.YAML([]byte(text))
+			} else {
+				out, errs = m.JSON([]byte(text))
+			}
+		}()
+		return string(out), len(errs), okc
+	}
+	reused := match.Any(ps, missing)
+	var steps []string
+	for k := 0; k < 2+r.IntN(3); k++ {
+		ph, phk := drawPlaceholder(r)
+		if yaml && yamlPHClass(ph, 1) != "" {
+			ph, phk = "<plain>", "string-short"
+		}
+		lenient := r.IntN(2) == 0
+		if r.IntN(4) > 0 {
+			reused.Placeholder(ph)
+		} else {
+			ph, phk = nil, "unchanged"
+		}
+		reused.ErrOnMissingPath(!lenient)
+		steps = append(steps, fmt.Sprintf("Placeholder(%s) ErrOnMissingPath(%v)", phk, !lenient))
+		got, gotErrs, ok1 := apply(reused)
+		// the same settings on a matcher built for this application only
+		fresh := match.Any(ps, missing).ErrOnMissingPath(!lenient)
+		if phk != "unchanged" {
+			fresh.Placeholder(ph)
+		} else if lastPH != nil {
+			fresh.Placeholder(lastPH.v)
+		}
+		if phk != "unchanged" {
+			lastPH = &phBox{ph}
+		}
+		want, wantErrs, ok2 := apply(fresh)
+		c.Count("reconfigured_matcher_applications", 1)
+		if !ok1 || !ok2 {
+			continue
+		}
+		if got != want || gotErrs != wantErrs {
+			in := map[string]any{"sub": "reconfigured-matcher", "yaml": yaml, "document": vkit.Clip(text, 2000), "path": ps, "steps": steps}
+			c.Violate("reused-matcher-ignores-its-current-settings", "", fmt.Sprintf("Any(%q, %q) after %v: output %s (%d errors), a matcher built with the same settings gives %s (%d errors)", ps, missing, steps, vkit.Q(vkit.Clip(got, 500)), gotErrs, vkit.Q(vkit.Clip(want, 500)), wantErrs), in)
+			return
+		}
+	}
+	lastPH = nil
+	c.Case(vkit.Hash("rc", text, ps, fmt.Sprint(steps), yaml), true)
+}
+
+type phBox struct{ v any }
+
+var lastPH *phBox
+
 func c15JSONDirect(c *vkit.Ctx, r *rand.Rand, i int) {
 	if i%12 == 0 {
 		c15JSONMultiPath(c, r, i)
@@ -448,6 +547,16 @@ func c15JSONDirect(c *vkit.Ctx, r *rand.Rand, i int) {
 	}
 	if i%12 == 4 {
 		c15JSONOverlap(c, r, i)
+		return
+	}
+	if i%24 == 8 {
+		lastPH = nil
+		c15Reconfigured(c, r, i, false)
+		return
+	}
+	if i%24 == 20 {
+		lastPH = nil
+		c15Reconfigured(c, r, i, true)
 		return
 	}
 	cl := vkit.Classes{}
